@@ -321,7 +321,7 @@ func (x *Exec) execBlock(st *State, b *ssa.BasicBlock, from *ssa.BasicBlock) {
 				x.doReturn(st, i)
 				return
 			case *ssa.Panic:
-				if x.nopanic {
+				if x.nopanic && !x.ctr.AllowExplicitPanic {
 					x.oblige(st, "panic", fmt.Sprint(x.ordinals[i]), tFalse, i.Pos(), "explicit panic reachable")
 				}
 				return
